@@ -129,11 +129,50 @@ pub open spec fn xor_seq(a: Seq<u64>, b: Seq<u64>) -> Seq<u64> {
     Seq::new(a.len(), |i: int| a[i] ^ b[i])
 }
 
-/// RFC 9106 section 3.5: compression function G(X, Y) = Z xor R, R = X xor Y, Z = columns(rows(R))
+/// in-place formulation of G used by the contracts of fill_block (rows then columns, each through p_at on the block
+/// itself); proof_argon2::lemma_g_spec_is_rfc proves it equal to g_rfc below
 pub open spec fn g_spec(x: Seq<u64>, y: Seq<u64>) -> Seq<u64> {
     let r = xor_seq(x, y);
     xor_seq(cols_spec(rows_spec(r, 8), 8), r)
 }
+
+// ---- RFC 9106 section 3.5 / 3.6 in the RFC's own shape ---------------------------------------------------------
+pub open spec fn id16() -> Seq<int> {
+    Seq::new(16, |k: int| k)
+}
+
+/// RFC 9106 3.6: the permutation P on (S_0, .., S_7) = 16 words v_0 .. v_15, S_i = v_{2i+1} || v_{2i}
+pub open spec fn p16(v: Seq<u64>) -> Seq<u64> {
+    p_at(v, id16())
+}
+
+/// row i of the 8x8 register matrix: registers R_{8i} .. R_{8i+7} = words 16 i .. 16 i + 15
+pub open spec fn row_of(r: Seq<u64>, i: int) -> Seq<u64> {
+    r.subrange(16 * i, 16 * i + 16)
+}
+
+/// column i: registers Q_i, Q_{i+8}, .., Q_{i+56}; register k = words 2k, 2k+1
+pub open spec fn col_of(q: Seq<u64>, i: int) -> Seq<u64> {
+    Seq::new(16, |k: int| q[2 * (i + 8 * (k / 2)) + k % 2])
+}
+
+/// (Q_{8i}, .., Q_{8i+7}) <- P(R_{8i}, .., R_{8i+7}) for every row i
+pub open spec fn g_rows(r: Seq<u64>) -> Seq<u64> {
+    Seq::new(128, |j: int| p16(row_of(r, j / 16))[j % 16])
+}
+
+/// (Z_i, Z_{i+8}, .., Z_{i+56}) <- P(Q_i, Q_{i+8}, .., Q_{i+56}) for every column i; word j belongs to register j / 2,
+/// which is in column (j / 2) % 8 and row (j / 2) / 8
+pub open spec fn g_cols(q: Seq<u64>) -> Seq<u64> {
+    Seq::new(128, |j: int| p16(col_of(q, (j / 2) % 8))[2 * ((j / 2) / 8) + j % 2])
+}
+
+/// G(X, Y): R = X xor Y, rows, columns, output Z xor R
+pub open spec fn g_rfc(x: Seq<u64>, y: Seq<u64>) -> Seq<u64> {
+    let r = xor_seq(x, y);
+    xor_seq(g_cols(g_rows(r)), r)
+}
+
 
 // ------------------------------------------------------------------------------------------------
 // blocks as 1024 bytes <-> 128 little-endian 64-bit words
@@ -208,7 +247,7 @@ pub open spec fn addr_input(pass: nat, lane: nat, slice: nat, mprime: nat, t: na
 
 /// the ctr-th 1024-byte address block G(ZERO(1024), G(ZERO(1024), Z || LE64(ctr) || ZERO(968))), ctr = 1, 2, ..
 pub open spec fn addr_block(pass: nat, lane: nat, slice: nat, mprime: nat, t: nat, y: nat, ctr: nat) -> Seq<u64> {
-    g_spec(zero_blk(), g_spec(zero_blk(), addr_input(pass, lane, slice, mprime, t, y, ctr)))
+    g_rfc(zero_blk(), g_rfc(zero_blk(), addr_input(pass, lane, slice, mprime, t, y, ctr)))
 }
 
 /// the 8-byte value X = J1 || J2 (J1 = low 32 bits) used for block `index` of the segment (Argon2i addressing)
@@ -232,7 +271,7 @@ pub open spec fn argon2_step(mem: Seq<Seq<u64>>, seg: nat, t: nat, y: nat, pass:
     let x: u64 = if data_indep(y, pass, slice) { addr_j(pass, 0, slice, q, t, y, index) } else { prev[0] };
     let j1 = (x as nat) % 0x1_0000_0000;
     let z = ref_index_spec(pass, slice, index, seg, true, j1);
-    let g = g_spec(prev, mem[z]);
+    let g = g_rfc(prev, mem[z]);
     mem.update(j as int, if pass == 0 { g } else { xor_seq(g, mem[j as int]) })
 }
 
